@@ -239,7 +239,7 @@ class CallStack(deque):
         self.refstack = executor.refstack
         self.idxstack = deque()
 
-        if maxdepth:
+        if maxdepth is not None:
             self.maxdepth = maxdepth
         else:
             self.maxdepth = self.default_maxdepth
